@@ -32,7 +32,8 @@ func ParseTargetType(targetCtx string) string {
 
 func WarpTargetFullType(targetType string) (string, string) {
 	callType := ""
-	if strings.EqualFold(currentClz, targetType) {
+	// Java names are case-sensitive: Orderdto is another class than OrderDTO
+	if currentClz == targetType {
 		callType = "self"
 		return currentPkg + "." + targetType, callType
 	}
